@@ -404,4 +404,127 @@ theorem lsRef_ok (m r n : Nat) (B C : Nat → Nat → ℝ) (b : Nat → ℝ) (x 
       · rw [ex, transpose_mul, ← es]
         simp only [mulVec_mulVec, Matrix.mul_assoc]
 
+/-- converse of the certificate: a minimiser of `‖A y - b‖` satisfies the normal equations -/
+theorem ls_certificate_converse {m n : ℕ} (A : Matrix (Fin m) (Fin n) ℝ) (b : Fin m → ℝ) (x : Fin n → ℝ)
+    (hmin : ∀ y, nrm2 (A *ᵥ x - b) ≤ nrm2 (A *ᵥ y - b)) : Aᵀ *ᵥ (A *ᵥ x - b) = 0 := by
+  set r := A *ᵥ x - b with hr
+  set g := Aᵀ *ᵥ r with hg
+  by_contra hne
+  have hgpos : 0 < nrm2 g := lt_of_le_of_ne (nrm2_nonneg g) (fun h => hne ((nrm2_eq_zero g).mp h.symm))
+  have hq := nrm2_nonneg (A *ᵥ g)
+  -- step of length t along -g
+  set t : ℝ := nrm2 g / (nrm2 (A *ᵥ g) + 1) with ht
+  have htpos : 0 < t := div_pos hgpos (by linarith)
+  have key := hmin (x - t • g)
+  have e : A *ᵥ (x - t • g) - b = r + (-t) • (A *ᵥ g) := by
+    rw [mulVec_sub, mulVec_smul, hr]; simp only [neg_smul]; abel
+  have cross : r ⬝ᵥ (A *ᵥ g) = nrm2 g := by
+    rw [dotProduct_mulVec, ← mulVec_transpose]; rfl
+  rw [e, nrm2_add] at key
+  have e2 : nrm2 ((-t) • (A *ᵥ g)) = t * t * nrm2 (A *ᵥ g) := by
+    unfold nrm2; rw [smul_dotProduct, dotProduct_smul, smul_eq_mul, smul_eq_mul]; ring
+  rw [e2, dotProduct_smul, cross, smul_eq_mul] at key
+  -- key : ‖r‖² ≤ ‖r‖² + 2(-t‖g‖²) + t²‖Ag‖²
+  have h1 : t * nrm2 (A *ᵥ g) < nrm2 g := by
+    rw [ht, div_mul_eq_mul_div, div_lt_iff₀ (by linarith)]
+    nlinarith
+  nlinarith
+
+/-- with full column rank (`AᵀA` positive definite) the least-squares solution is unique -/
+theorem ls_unique_of_full_rank {m n : ℕ} (A : Matrix (Fin m) (Fin n) ℝ) (b : Fin m → ℝ)
+    (hfull : ∀ v : Fin n → ℝ, A *ᵥ v = 0 → v = 0) (x y : Fin n → ℝ)
+    (hx : Aᵀ *ᵥ (A *ᵥ x - b) = 0) (hy : Aᵀ *ᵥ (A *ᵥ y - b) = 0) : y = x := by
+  have h1 : Aᵀ *ᵥ (A *ᵥ (y - x)) = 0 := by
+    have : A *ᵥ (y - x) = (A *ᵥ y - b) - (A *ᵥ x - b) := by rw [mulVec_sub]; abel
+    rw [this, mulVec_sub, hx, hy, sub_zero]
+  have h2 : A *ᵥ (y - x) = 0 := by
+    rw [← nrm2_eq_zero]
+    unfold nrm2
+    rw [dotProduct_mulVec, ← mulVec_transpose, h1, zero_dotProduct]
+  exact sub_eq_zero.mp (hfull _ h2)
+
+/-- meaning of `info`: the factorisation of the leading block of order `info - 1` succeeds, the one of order `info`
+fails -/
+theorem chol_info_meaning (A : Nat → Nat → ℝ) : ∀ n e, chol A n = .error e →
+    (∃ L, chol A (e - 1) = .ok L) ∧ chol A e = .error e := by
+  intro n
+  induction n with
+  | zero => intro e h; simp [chol] at h
+  | succ n ih =>
+    intro e h
+    have hcopy := h
+    rw [chol] at h
+    cases hc : chol A n with
+    | error e' =>
+      rw [hc] at h
+      simp only [Except.error.injEq] at h
+      subst h
+      exact ih e' hc
+    | ok L =>
+      rw [hc] at h
+      simp only [] at h
+      split at h
+      · cases h
+      · simp only [Except.error.injEq] at h
+        subst h
+        exact ⟨⟨L, by simpa using hc⟩, hcopy⟩
+
+/-- state after `k` unconditional passes through the loop body -/
+noncomputable def cgIter (n : Nat) (A : Nat → Nat → ℝ) (M : Option (Nat → Nat → ℝ)) (s0 : CGState ℝ) : Nat → CGState ℝ
+  | 0 => s0
+  | k+1 => cgStep n A M (cgIter n A M s0 k)
+
+theorem cgIter_iter (n : Nat) (A : Nat → Nat → ℝ) (M : Option (Nat → Nat → ℝ)) (s0 : CGState ℝ) (k : Nat) :
+    (cgIter n A M s0 k).iter = s0.iter + k := by
+  induction k with
+  | zero => rfl
+  | succ k ih => rw [cgIter, cgStep_iter, ih]; omega
+
+theorem cgIter_rel (n : Nat) (A : Nat → Nat → ℝ) (M : Option (Nat → Nat → ℝ)) (b : Nat → ℝ) (x0 : Option (Nat → ℝ)) (k : Nat) :
+    Rel n (cgIter n A M (cgInit n A b x0) k)
+      (CGAbs.seq (toMat n n A) (precMat n M) (toVec n b) (toVec n (cgInit n A b x0).x.get) k) := by
+  induction k with
+  | zero => exact cgInit_rel n A M b x0
+  | succ k ih =>
+    have h := cgStep_rel n A M _ _ ih
+    have hit : (cgIter n A M (cgInit n A b x0) k).iter = k := by
+      rw [cgIter_iter]; simp [cgInit]
+    rw [hit] at h
+    exact h
+
+/-- **no breakdown before convergence**: on an SPD system with SPD (or no) preconditioner, as long as the residuals
+of passes `0..k` are non-zero, both denominators of pass `k` (`rho_prev` of the next pass and `pᵀ A p`) are positive —
+the model's totalised division is never used at `0` on the property's domain. -/
+theorem cg_no_breakdown_model (n : Nat) (A : Nat → Nat → ℝ) (b : Nat → ℝ)
+    (x0 : Option (Nat → ℝ)) (M : Option (Nat → Nat → ℝ))
+    (hA : IsSPD n A) (hM : ∀ M', M = some M' → IsSPD n M') (k : Nat)
+    (hne : ∀ j, j ≤ k → ∃ i, i < n ∧ (cgIter n A M (cgInit n A b x0) j).r.get i ≠ 0) :
+    0 < cgRho n M (cgIter n A M (cgInit n A b x0) k) ∧
+    0 < dot n (cgP n M (cgIter n A M (cgInit n A b x0) k)).get (cgQ n A M (cgIter n A M (cgInit n A b x0) k)).get := by
+  have hApd := (isSPD_iff_posDef n A).mp hA
+  have hMpd : (precMat n M).PosDef := by
+    cases M with
+    | none => exact Matrix.PosDef.one
+    | some M' => exact (isSPD_iff_posDef n M').mp (hM M' rfl)
+  have hne' : ∀ j, j ≤ k → (CGAbs.seq (toMat n n A) (precMat n M) (toVec n b) (toVec n (cgInit n A b x0).x.get) j).r ≠ 0 := by
+    intro j hj h0
+    obtain ⟨i, hi, hri⟩ := hne j hj
+    have hrel := cgIter_rel n A M b x0 j
+    rw [← hrel.2.1] at h0
+    exact hri ((toVec_eq_zero_iff n _).mp h0 i hi)
+  have hnb := CGAbs.cg_no_breakdown (toMat n n A) (precMat n M) hApd hMpd (toVec n b)
+    (toVec n (cgInit n A b x0).x.get) k hne'
+  have hrel := cgIter_rel n A M b x0 (k+1)
+  -- state k+1 of the model is cgStep of state k: read rho and p off cgStep_eq
+  have e : cgIter n A M (cgInit n A b x0) (k+1) = cgStep n A M (cgIter n A M (cgInit n A b x0) k) := rfl
+  rw [e, cgStep_eq] at hrel
+  obtain ⟨_, _, hp, hrho⟩ := hrel
+  simp only [] at hp hrho
+  constructor
+  · rw [hrho]; exact hnb.1
+  · have hq : toVec n (cgQ n A M (cgIter n A M (cgInit n A b x0) k)).get
+        = toMat n n A *ᵥ toVec n (cgP n M (cgIter n A M (cgInit n A b x0) k)).get := by
+      unfold cgQ; rw [toVec_tab, toVec_matVec]
+    rw [dot_toVec, hq, hp]; exact hnb.2
+
 end PP.LinSolve
